@@ -33,7 +33,7 @@ def run(chk, program, tier):
     lower_attrs = {a['exclude_pgns'][1], a['include_pgns'][1]}
     int_attrs = {a['exclude_pgns'][0], a['include_pgns'][0]}
     n = F.norm_rule(chk, program, 'FILTER-NORM', lower_attrs, int_attrs, ['__init__', '_decode', '_call_decode_function'], consts)
-    chk.floor('membership_tests', n, 8)
+    chk.floor('membership_tests', n, 5)       # the tests of the decode stages; the constructor's own are covered by its interpretation (FILTER-TABLE)
     # FILTER-PURE: arguments handed to add_data / apply_preferred_units and stores do not mention the filter lists
     fn, ex = stages['_call_decode_function']
     filt = lower_attrs | int_attrs | {a['flag']}
